@@ -19,7 +19,7 @@ CONSTANTS
   Unit,       \* indentation unit (sequence of characters)
   Base,       \* indentation (in units) of depth 0
   FreeInd,    \* set of indentations (in units) a code line / tag line may choose in addition to Base + depth
-  WsLens,     \* set of lengths of whitespace-only lines (in characters of Unit[1]); {} = none
+  WsLens,     \* set of lengths of whitespace-only lines (in characters, taken cyclically from Unit); {} = none
   Blank,      \* TRUE: empty lines allowed
   Suffix,     \* text appended to every code line (e.g. a multi-byte character), <<>> for none
   FlagVal,    \* spelling appended to the flag attributes skip / unwrap-block: <<>> (bare) or e.g. ='1' (valued flag)
@@ -126,7 +126,7 @@ LineTextOf(l) ==
   ELSE IF l.k = "copen" THEN Indent(l.ind) \o <<111>> \o Digits(l.n) \o <<59, 32, 123, 32>> \o OpenTag(l.kind, l.n)          \* o<n>; { <tag>
   ELSE IF l.k = "cclose" THEN Indent(l.ind) \o CloseTag(l.kind) \o <<100, 32, 32, 32, 61, 32>> \o Digits(l.n) \o <<59>>      \* </tag>d   = <n>;
   ELSE IF l.k = "blank" THEN <<>>
-  ELSE IF l.k = "ws" THEN RepeatCh(Unit[1], l.ind)
+  ELSE IF l.k = "ws" THEN [i \in 1..l.ind |-> Unit[((i - 1) % Len(Unit)) + 1]]        \* the characters of the unit, cyclically
   ELSE IF l.k = "open" THEN Indent(l.ind) \o OpenTag(l.kind, l.n)
   ELSE Indent(l.ind) \o CloseTag(l.kind)
 
